@@ -585,11 +585,16 @@ class XPathContext:
             descendants = set(self.item.iter_descendants())
             position = self.item.position
 
-            root = self.item
-            while isinstance(root.parent, ElementNode) and root is not self.root:
+            root: XPathNode = self.item
+            while root.parent is not None and root is not self.root:
                 root = root.parent
 
-            for item in root.iter_descendants(with_self=False):
+            if not isinstance(root, (DocumentNode, ElementNode)):
+                root_descendants: Iterator[ta.ChildNodeType] = iter(())
+            else:
+                root_descendants = root.iter_descendants(with_self=False)
+
+            for item in root_descendants:
                 if position < item.position and item not in descendants:
                     self.item = item
                     yield item
